@@ -724,6 +724,15 @@ struct Http
 				fail("http.connect.failed", who(c) + ": connect to the listening server failed with '" + c.connect_ec.message() + "'");
 				continue;
 			}
+			if (c.connected_at_stop && !c.early_closed && !c.closed_by_us && c.cv.terminal == mh::ServerClose && c.resp_seen >= c.cv.expects.size()
+				&& c.written >= c.cv.decisive_end && !c.eof_seen && !c.read_error)
+			{
+				// about a connection that was live at stop() the statement says little, but a server that answers a request which
+				// ends the connection (asked for close, or keep-alive off) has to close it, stopped or not
+				fail("http.close.missing.after_stop", who(c) + ": all " + std::to_string(c.resp_seen) + " responses arrived, the last of them ends the connection ("
+					+ (keep_alive ? "the request asked for close" : "keep-alive is disabled") + "), but the server, stopped meanwhile, keeps the connection open");
+				continue;
+			}
 			if (c.relaxed || c.early_closed) continue;
 			if (c.cv.terminal == mh::Open || c.cv.terminal == mh::Stalled)
 			{
